@@ -261,6 +261,9 @@ class Interp:
             return ite(v[1], a, b)
         if v[0] in ('undef',):
             return None
+        if v[0] == 'load' and len(v) == 3:
+            # a field of a struct value that was loaded from memory is the value loaded from that field (same epoch)
+            return ('load', ('fld', v[1], field), v[2])
         return ('app', 'proj', v, field)
 
     def project_variant(self, st, v, variant, field):
